@@ -459,3 +459,88 @@ where
         Ok(())
     }
 }
+
+#[cfg(funbiscuit_embedded_cli_rs_verif)]
+impl<W, E, CommandBuffer, HistoryBuffer> Cli<W, E, CommandBuffer, HistoryBuffer>
+where
+    W: Write<Error = E>,
+    E: embedded_io::Error,
+    CommandBuffer: Buffer,
+    HistoryBuffer: Buffer,
+{
+    pub fn __verif_from_parts(
+        editor: Editor<CommandBuffer>,
+        #[cfg(feature = "history")] history: History<HistoryBuffer>,
+        input_generator: InputGenerator,
+        prompt: &'static str,
+        writer: W,
+    ) -> Self {
+        Self {
+            editor: Some(editor),
+            #[cfg(feature = "history")]
+            history,
+            input_generator: Some(input_generator),
+            prompt,
+            writer,
+            #[cfg(not(feature = "history"))]
+            _ph: PhantomData,
+        }
+    }
+    pub fn __verif_editor(&self) -> Option<&Editor<CommandBuffer>> {
+        self.editor.as_ref()
+    }
+    #[cfg(feature = "history")]
+    pub fn __verif_history(&self) -> &History<HistoryBuffer> {
+        &self.history
+    }
+    pub fn __verif_input(&self) -> Option<&InputGenerator> {
+        self.input_generator.as_ref()
+    }
+    pub fn __verif_writer(&self) -> &W {
+        &self.writer
+    }
+    pub fn __verif_writer_mut(&mut self) -> &mut W {
+        &mut self.writer
+    }
+    pub fn __verif_prompt(&self) -> &'static str {
+        self.prompt
+    }
+
+    /// Body of `process_byte` after the decoder has produced `control`
+    pub fn __verif_on_control<C: Autocomplete + Help, P: CommandProcessor<W, E>>(
+        &mut self,
+        control: ControlInput,
+        processor: &mut P,
+    ) -> Result<(), E> {
+        if let Some(mut editor) = self.editor.take() {
+            let result = self.on_control_input::<C, _>(&mut editor, control, processor);
+            self.editor = Some(editor);
+            result
+        } else {
+            Ok(())
+        }
+    }
+
+    /// Body of `process_byte` after the decoder has produced `text`
+    pub fn __verif_on_text(&mut self, text: &str) -> Result<(), E> {
+        if let Some(mut editor) = self.editor.take() {
+            let result = self.on_text_input(&mut editor, text);
+            self.editor = Some(editor);
+            result
+        } else {
+            Ok(())
+        }
+    }
+
+    pub fn __verif_process_input<C: Help, P: CommandProcessor<W, E>>(
+        &mut self,
+        tokens: Tokens<'_>,
+        handler: &mut P,
+    ) -> Result<(), E> {
+        self.process_input::<C, P>(tokens, handler)
+    }
+
+    pub fn __verif_process_error(&mut self, error: ParseError<'_>) -> Result<(), E> {
+        self.process_error(error)
+    }
+}
